@@ -37,7 +37,7 @@ ANCHORS = ['pfhedge.nn.modules.hedger:Hedger.compute_hedge',
            'pfhedge.features.container:FeatureList.get',
            'pfhedge.features.features:Barrier.get']
 DECIDING = ["model_input.declared_order", "feature.step_equals_column", "branches.agree", "prev_hedge.is_last_output", "prev_hedge.zero_at_step0"]
-REQUIRED_BRANCHES = ["prev_hedge.first", "prev_hedge.middle", "option_with_two_underliers", "underlier_on_another_grid", "H>1", "second_call_same_shape", "second_call_other_paths", "barrier.down.nonmonotone", "sibling_hedger_shares_features", "model.overwrites_its_single_input", "feature.step_counted_from_the_end"]
+REQUIRED_BRANCHES = ["prev_hedge.first", "prev_hedge.middle", "option_with_two_underliers", "underlier_on_another_grid", "H>1", "second_call_same_shape", "second_call_other_paths", "barrier.down.nonmonotone", "sibling_hedger_shares_features", "model.overwrites_its_single_input", "feature.step_counted_from_the_end", "feature.steps_out_of_order"]
 
 
 class TwoUnderlierOption(BaseDerivative, OptionMixin):
@@ -88,8 +88,19 @@ def drv_features(ctx, k, rng):
         ff = f.of(derivative)
         with torch.no_grad():
             full = ff.get(None)
-            for i in range(T):
-                one = ff.get(i) if (i + k) % 3 else ff[i]  # feature[i] is the older spelling of feature.get(i)
+            # the steps are asked for in the hedger's order, in a shuffled order, or with gaps: get(i) is a function of i, not of what was asked before
+            order = list(range(T))
+            how = pick(rng, ["increasing", "shuffled", "gaps"])
+            if how == "shuffled":
+                order = [int(j_) for j_ in rng.permutation(T)]
+            elif how == "gaps" and T >= 3:
+                order = sorted({0, T - 1} | {int(j_) for j_ in rng.integers(0, T, size=max(1, T // 3))})
+            if how != "increasing" and T >= 3:
+                ctx.branch("feature.steps_out_of_order")
+            # (all single-step evaluations first, nothing else in between: a feature that carries state from one step to the next is then exposed)
+            ones = {i: (ff.get(i) if (i + k) % 3 else ff[i]) for i in order}  # feature[i] is the older spelling of feature.get(i)
+            for i in order:
+                one = ones[i]
                 ctx.seen(mon)
                 col = full[:, [i]]
                 if name in ("time_to_maturity", "expiry_time"):
